@@ -99,7 +99,8 @@ def add_dates(rng, claims):
             enc[name] = dt
             exp[name] = numeric_date(dt)
         elif r < 0.6:
-            v = rng.choice([0, 1, 1300819380, 2**31, 1.5, 2**40])
+            # (what is not a datetime goes out as it came in: also a digit string from a configuration file, or a value no NumericDate can be)
+            v = rng.choice([0, 1, 1300819380, 2**31, 1.5, 2**40, "1300819380", "12.5", "0", " 7", -5, 10 ** 30, None, True, [1], "2024-01-01T00:00:00Z"])
             enc[name] = v
             exp[name] = v
     return enc, exp
